@@ -19,7 +19,8 @@ RULE = ('Hypothesis-generated operation programs (0-10 steps plus bursts of up t
         '(==, same type) or the same exception type as live; same operation result; playback_outputs == '
         'recorded_outputs as key->value maps without duplicate keys; no wrapped body executes during replay. '
         'Non-trivial: >= 2 interceptions with >= 1 input taking arguments and >= 1 output, or any of handler, resolver, '
-        'capture subset, nesting, threads, raising interception, > 9 calls of one alias. Distinct = distinct '
+        'capture subset, nesting, threads, raising interception, > 9 calls of one alias. Recording parameters '
+        '(copy-on-interception, rate >= 1, ignore-forcing) are drawn per program. Distinct = distinct '
         '(program, cassette, playback style).')
 ASSUMPTIONS = ['an input is a function of its alias and captured arguments (generator normalises duplicate keys)',
                'values in the faithful domain of the pinned serializer (DESIGN.md 2.2)',
@@ -152,13 +153,18 @@ def check_roundtrip(ctx, case):
     nt = (n_in + n_out >= 2 and with_args and n_out >= 1) or bool(
         shapes & {'in-handler', 'out-handler', 'resolver', 'capture-subset', 'nested', 'threads', 'in-raises',
                   'out-raises', 'alias>9calls'})
+    if (prog.get('params') or {}).get('copy_data_on_intercepion'):
+        shapes.add('copy-on-interception')
     ctx.case(case, nt, classes=tuple('shape:' + s for s in sorted(shapes)) + (
         'cassette:' + cassette, 'style:' + style, 'family:' + case.get('family', '?')))
 
 
 def cases():
     def fam(name, values):
-        return st.fixed_dictionaries({'prog': PS.programs(values=values), 'cassette': st.sampled_from(CASSETTES),
+        params = st.sampled_from([None, None, {'copy_data_on_intercepion': True}, {'copy_data_on_intercepion': True},
+                                  {'sampling_rate': 1.5}, {'ignore_enforced_sampling': True}])
+        return st.fixed_dictionaries({'prog': PS.programs(values=values, params=params),
+                                      'cassette': st.sampled_from(CASSETTES),
                                       'style': st.sampled_from(['direct', 'metadata-class']), 'family': st.just(name)})
     return st.one_of(fam('objects', V.small_values), fam('objects', V.small_values),
                      fam('aliasing', V.aliasing_values()), fam('ints', st.integers(0, 5)))
